@@ -408,7 +408,7 @@ func MetaDataKVHandler(resHolder *SearchResult, attrGetter AttributeGetter, addi
 				if !matches {
 					if i == 0 {
 						// iteration starts from the 1st filter's value, so there is nothing further
-						if mch != object.MatchStringNotEqual && (wasPrimMatch || mch != object.MatchNumGT) {
+						if !scatteredMatches(attr, mch) && (wasPrimMatch || mch != object.MatchNumGT) {
 							return false
 						}
 					} else if mch == object.MatchNumLT || mch == object.MatchNumLE {
@@ -542,6 +542,23 @@ func MetaDataKVHandler(resHolder *SearchResult, attrGetter AttributeGetter, addi
 
 		return true
 	}
+}
+
+// scatteredMatches reports whether attribute values matching the filter with
+// given matcher do not form a continuous range of the attribute's index, so that
+// the whole index has to be checked. Base58 prefix of the value says nothing
+// about the order of binary values.
+func scatteredMatches(attr string, m object.SearchMatchType) bool {
+	switch m {
+	case object.MatchStringNotEqual:
+		return true
+	case object.MatchCommonPrefix:
+		switch attr {
+		case object.FilterOwnerID, object.FilterFirstSplitObject, object.FilterParentID, object.AttributeAssociatedObject:
+			return true
+		}
+	}
+	return false
 }
 
 func convertFilterValue(f object.SearchFilter) (object.SearchMatchType, string) {
@@ -734,7 +751,7 @@ func PreprocessSearchQuery(fs object.SearchFilters, attrs []string, cursor strin
 	primMatcher, primVal := convertFilterValue(fs[0])
 	oidSorted := len(attrs) == 0 || primMatcher == object.MatchNotPresent
 	var primValDB []byte
-	if !oidSorted && cursor == "" && primMatcher != object.MatchStringNotEqual && !IsIntegerSearchOp(primMatcher) {
+	if !oidSorted && cursor == "" && !scatteredMatches(fs[0].Header(), primMatcher) && !IsIntegerSearchOp(primMatcher) {
 		switch attr := fs[0].Header(); attr {
 		default:
 			primValDB = []byte(primVal)
@@ -845,7 +862,7 @@ func PreprocessSearchQuery(fs object.SearchFilters, attrs []string, cursor strin
 					primKeysPrefix = primSeekKey
 				}
 			} else {
-				// according to the condition above, primValDB is empty for '!=' matcher as it should be
+				// according to the condition above, primValDB is empty for scattered matches as it should be
 				primSeekKey = slices.Concat([]byte{metaPrefixAttrIDPlain}, []byte(attrs[0]), MetaAttributeDelimiter, primValDB)
 				primKeysPrefix = primSeekKey[:1+len(attrs[0])+attributeDelimiterLen]
 			}
